@@ -142,7 +142,14 @@ pub fn generate(seed: u64, prof: &GenProfile) -> History {
                 } else if rng.pct(prof.valid_add_pct) {
                     IdRef::Latest(c)
                 } else if k == 0 && rng.pct(12) {
-                    ops.push(Op { client: c, kind: OpKind::Resend { k: rng.usize(b.len) } });
+                    let kind = if rng.pct(50) {
+                        OpKind::Resend { k: rng.usize(b.len) }
+                    } else {
+                        // mostly the latest version's bytes with an older parent
+                        let k = if rng.pct(70) { b.len - 1 } else { rng.usize(b.len) };
+                        OpKind::ResendStale { k, j: rng.usize(b.len) }
+                    };
+                    ops.push(Op { client: c, kind });
                     continue;
                 } else {
                     match rng.weighted(&[10, 25, 10, 15, 25, 10, 5]) {
